@@ -10,7 +10,7 @@ From Anthem Require Model.AspParse Model.AspPrint Model.FolLex Model.FolParse Mo
 From Anthem Require Import Model.Cli.
 From Anthem Require Proofs.StrategyClsOk Proofs.SimplFull Proofs.TightnessOk Proofs.RegularOk.
 From Anthem Require Properties.C01 Properties.C07 Properties.C07full Properties.C11tight Properties.C11reg
-  Properties.C14 Properties.C15 Properties.C18.
+  Properties.C14 Properties.C15 Properties.C15text Properties.C18.
 Open Scope list_scope.
 Open Scope string_scope.
 
@@ -201,25 +201,55 @@ Proof.
   - unfold program_from_file. destruct (C14.C14_accepted_text s P EP Hk) as [-> _]. reflexivity.
 Qed.
 
-(* parse --as theory: token-level round trip (C15); the lexical step for printed text is the part of
-   C15 that is tied by correspondence only, hence an explicit hypothesis here *)
-Theorem cli_parse_theory_roundtrip_partial s out :
+(* parse --as theory | specification | user-guide: text-level round trip (C15 + the lexical step of
+   Properties/C15text.v: the model lexer reads the printed bytes back as the printed tokens).
+   known_class_* = F7b, C15-RIMP. *)
+Theorem cli_parse_theory_roundtrip s out :
   run_cli (Parse Theory) s = Stdout out ->
   exists t,
     FolParse.parse_theory_str s = FolParse.PR_ok t /\
     out = FolPrint.show_theory t /\
     (FolClass.known_class_theory t = None ->
-     FolLex.lex out = Some (FolPrint.strip (FolPrint.print_theory true t)) ->
      FolParse.parse_theory_str out = FolParse.PR_ok t /\ run_cli (Parse Theory) out = Stdout out).
 Proof.
   cbn [run_cli run_parse]. intros E.
   apply theory_bind_stdout in E. destruct E as (t & Et & E).
   apply print_theory_inj_stdout in E. subst out.
-  exists t. split; [exact Et|]. split; [reflexivity|]. intros Hk Hl. split.
-  - unfold FolParse.parse_theory_str, FolParse.on_text. rewrite Hl.
-    apply (C15.C15_parsed_theory s t Et Hk).
-  - unfold theory_from_file, FolParse.parse_theory_str, FolParse.on_text. rewrite Hl.
-    rewrite (C15.C15_parsed_theory s t Et Hk). reflexivity.
+  exists t. split; [exact Et|]. split; [reflexivity|]. intros Hk.
+  destruct (C15text.C15_accepted_text_theory s t Et Hk) as [H _]. split; [exact H|].
+  unfold theory_from_file. rewrite H. reflexivity.
+Qed.
+
+Theorem cli_parse_specification_roundtrip s out :
+  run_cli (Parse Specification) s = Stdout out ->
+  exists t,
+    FolParse.parse_spec_str s = FolParse.PR_ok t /\
+    out = FolPrint.show_spec t /\
+    (FolClass.known_class_spec t = None ->
+     FolParse.parse_spec_str out = FolParse.PR_ok t /\ run_cli (Parse Specification) out = Stdout out).
+Proof.
+  cbn [run_cli run_parse]. intros E. unfold specification_from_file in E.
+  apply presult_bind_stdout in E. destruct E as (t & Et & E).
+  unfold print_specification in E. injection E as <-.
+  exists t. split; [exact Et|]. split; [reflexivity|]. intros Hk.
+  destruct (C15text.C15_accepted_text_specification s t Et Hk) as [H _]. split; [exact H|].
+  unfold specification_from_file. rewrite H. reflexivity.
+Qed.
+
+Theorem cli_parse_user_guide_roundtrip s out :
+  run_cli (Parse UserGuide) s = Stdout out ->
+  exists t,
+    FolParse.parse_ug_str s = FolParse.PR_ok t /\
+    out = FolPrint.show_ug t /\
+    (FolClass.known_class_ug t = None ->
+     FolParse.parse_ug_str out = FolParse.PR_ok t /\ run_cli (Parse UserGuide) out = Stdout out).
+Proof.
+  cbn [run_cli run_parse]. intros E. unfold user_guide_from_file in E.
+  apply presult_bind_stdout in E. destruct E as (t & Et & E).
+  unfold print_user_guide in E. injection E as <-.
+  exists t. split; [exact Et|]. split; [reflexivity|]. intros Hk.
+  destruct (C15text.C15_accepted_text_user_guide s t Et Hk) as [H _]. split; [exact H|].
+  unfold user_guide_from_file. rewrite H. reflexivity.
 Qed.
 
 (* ------------------------------------------------------------------ analyze *)
